@@ -190,6 +190,12 @@ func outOfRange(tkind types.BasicKind, cval constant.Value) bool {
 	if cval == nil {
 		return false
 	}
+	if cval.Kind() == constant.Complex { // complex constants are not ordered: compare the real part
+		if constant.Sign(constant.Imag(cval)) != 0 {
+			return true
+		}
+		cval = constant.Real(cval)
+	}
 	rg := tkindRanges[tkind]
 	return constant.Compare(cval, token.LSS, rg[0]) || constant.Compare(cval, token.GTR, rg[1])
 }
